@@ -68,7 +68,6 @@ var c15MapRanges = map[string][2]string{
 	"html/tree.(*TargetCollector).CacheTargetPageCounters | missingCounters":       {"insensitive", "existence search: the first hit sets a constant flag and re-parses once, then breaks"},
 	"html/tree.newComputedStyle | cascaded":                                        {"insensitive", "stores each custom property under its own name k.Var (keys with an empty Var are skipped); distinct keys have distinct names"},
 	"svg.newSVGContext | colorAttributes":                                          {"insensitive", "rewrites the entry of its own key; the only other entry it reads is \"color\", which is not a key of colorAttributes"},
-	"svg.(*svgContext).inheritDefs | tree.defs":                                    {"insensitive", "inheritElement resolves the whole href chain of its argument first, so the result per element does not depend on which element is visited first"},
 }
 
 // map iterations whose order reaches the output: reproduced findings (listed in known_findings.json)
